@@ -125,7 +125,7 @@ Definition tokens (s : state) (g : nat) : nat :=
    connection are conditional on the switch that breaks them) *)
 Record wf (sw : switches) (s : state) : Prop := {
   (* connClosed is in progress only while close() waits for the server loop *)
-  wf_closer : match ph s with Closing => True | _ => closer s = None end;
+  wf_closer : match ph s with Closing | ClosingStuck => True | _ => closer s = None end;
   (* an open client exists only from its creation in Start until the session ends *)
   wf_cli : match ph s with Registering | AwaitConfigure | AwaitLost | Configured => True | _ => cli_open s = false end;
   (* every client ever created has exactly one close notification, somewhere *)
@@ -139,7 +139,13 @@ Record wf (sw : switches) (s : state) : Prop := {
             | _ => True
             end;
   wf_started : match ph s with Configured => started s = true | Idle => started s = false | _ => True end;
-  wf_waiters : match ph s with Configured | Closing => True | _ => waiters s = [] end
+  wf_waiters : match ph s with Configured | Closing => True | _ => waiters s = [] end;
+  (* a Run call is blocked only on the current session, while it is up or being closed *)
+  wf_runners : close_takes_srv_result sw = false ->
+               match ph s with
+               | Configured | Closing => forallb (Nat.eqb (gen s)) (runners s) = true
+               | _ => runners s = []
+               end
 }.
 
 (* the events a healthy runtime produces for one Start *)
@@ -149,7 +155,8 @@ Definition healthy_start : list action := [AStart; EDialOk; ISetupOk; ERegOk; EC
    bookkeeping of close notifications (pending, fired) *)
 Definition same_session (s s' : state) : Prop :=
   ph s' = ph s /\ started s' = started s /\ sconn s' = sconn s /\ gen s' = gen s /\ cli_open s' = cli_open s /\
-  waiters s' = waiters s /\ established s' = established s /\ last_start s' = last_start s.
+  waiters s' = waiters s /\ established s' = established s /\ last_start s' = last_start s /\
+  runners s' = runners s.
 
 
 (* Configure hands its result to Start on every way it can end *)
